@@ -177,3 +177,18 @@ Example dedup_aut_drops :
   dedup_aut (fun m => m) [[(1, 2); (2, 1)]]%N [[(1, 7); (2, 8)]; [(1, 8); (2, 7)]; [(1, 7); (2, 9)]]%N
   = [[(1, 7); (2, 8)]; [(1, 7); (2, 9)]]%N.
 Proof. vm_compute. reflexivity. Qed.
+
+(** the computed form of the completeness statement ([rep_ok], evaluated by the correspondence) is always true *)
+Lemma set_eqb_refl a : set_eqb a a = true.
+Proof. apply set_eqb_spec. intros x. tauto. Qed.
+
+Lemma rep_ok_true (rc : graph) (raw : list mapping) : rep_ok rc raw = true.
+Proof.
+  unfold rep_ok. apply forallb_forall. intros x Hx. apply existsb_exists.
+  unfold prune. destruct (1 <? length raw)%nat.
+  - destruct (dedup_aut_complete mapping (fun m => m) (rule_auts rc) raw x Hx) as (y & Hy & [E | [E | (s & Hs & E)]]).
+    + exists y. split; [exact Hy|]. subst y. rewrite set_eqb_refl. reflexivity.
+    + exists y. split; [exact Hy|]. rewrite E. reflexivity.
+    + exists y. split; [exact Hy|]. apply orb_true_iff. right. apply existsb_exists. exists s. split; assumption.
+  - exists x. split; [exact Hx|]. rewrite set_eqb_refl. reflexivity.
+Qed.
